@@ -170,6 +170,23 @@ Proof.
   destruct (c =? 126), (c =? 94), (c =? 32); reflexivity.
 Qed.
 
+(* ---- the templates and keywords of the printing / scanning functions in the current source are the
+   literals the model is written with (string constants extracted from the AST on every run) --------- *)
+Definition uses (required gen : list str) : bool := forallb (fun t => existsb (str_eqb t) gen) required.
+Definition PH : str := [123; 125].                                   (* {} *)
+Definition tpl_frame : str := M_file2 ++ PH ++ M_qline ++ PH ++ M_in ++ PH.
+Definition source_templates_ok : bool :=
+  uses [tpl_frame ++ M_nl; M_ind4; M_nl] gen_strs_Callpoint_tb_frame_str &&
+  uses [M_header ++ M_nl] gen_strs_TracebackInfo_get_formatted &&
+  uses [M_prev1 ++ PH ++ M_prev2 ++ PH ++ [93] ++ M_nl; [115]] gen_strs_repeated_str &&
+  uses [M_colon] gen_strs_ExceptionInfo_get_formatted_exception_only &&
+  uses [[37; 115; 10]; M_colon; M_nl] gen_strs_format_final_exc_line &&
+  uses [M_header; tpl_frame; M_ind4; M_colon; M_nl] gen_strs_ParsedException_to_string &&
+  uses [M_exception; M_ignored; M_header; [94]; [32]; M_colon; M_nl] gen_strs_ParsedException_from_string.
+
+Lemma source_templates : source_templates_ok = true.
+Proof. vm_compute. reflexivity. Qed.
+
 (* ---- the refuted full statements (recorded findings) ------------------------------------------------ *)
 Definition rec_live : live_frame := mkLive [114;46;112;121] 7 [102] [32;32;102;40;41;10].
 Definition rec_exc : live_exc := mkExc L_builtins [69] [69] (Some []) [69].
